@@ -101,6 +101,16 @@ def main(run):
             run.violation("correspondence broken: model Balance.balance_report differs from implementation (spec holds on this input)",
                           {"correspondence": "C02_corr.c02_case", "journal": c["text"], "selected_accounts": c["names"],
                            "implementation_output": c["impl"]}, found_input=False)
+    # extra stage (extension T01, DESIGN section 12): the rendered balance and balance-group texts
+    # against the text model ReportText.v, byte for byte
+    import t01_text
+    ok_t, log_t = coq_make(["props/T01.vo"])
+    if not ok_t:
+        run.violation("proof obligation does not check: props/T01.v (report text model) failed to build",
+                      {"theorem_file": "coq/props/T01.v", "log": log_t[-2000:]}, found_input=False)
+    else:
+        for kind in ("balance", "balgrp"):
+            t01_text.run_text_stage(run, kind, n=(25 if run.tier == "quick" else 300))
     run.cov["distinct_nontrivial"] = len(distinct)
     run.cov["rule"] = ("seeded random journals (1-8 txns, account trees depth<=7 with gaps and prefix-confusable names, "
                        "1-3 commodities, optional closing prices, optional literal account selection) + corpus; "
